@@ -11,6 +11,7 @@ from . import ops as O
 from . import sources
 from .engine import MAX_HANDLES, Sim, Violation, audit_steps
 from .inject import INJECTOR
+from .simfs import FS
 from .inject import TARGETS as INJECT_TARGETS
 
 FAST_QUERIES = list(O.QUERIES)
@@ -102,7 +103,7 @@ def _aimed_injection(rng, sim, hi, op):
     the query makes on a throw-away deep copy of the handle first."""
     fn = O.ALL_QUERIES[op][0]
     trial = copy.deepcopy(sim.world[hi])
-    counts = INJECTOR.probe(lambda: fn(trial, sim.A, {"dir": "/simfs/probe"}))
+    counts = INJECTOR.probe(lambda: fn(trial, sim.A, {"dir": FS.dir("probe")}))
     live = sorted(t for t, n in counts.items() if n > 0)
     if not live:
         target = rng.choice(INJECT_TARGETS)
@@ -452,7 +453,7 @@ def inject_template_run(verif_seed, index, stratum="inject", nth_override=None):
             state["phase"] = 2
             fn = O.ALL_QUERIES[op][0]
             trial = copy.deepcopy(sim.world[0])
-            n = INJECTOR.probe(lambda: fn(trial, sim.A, {"dir": "/simfs/probe"}))[target]
+            n = INJECTOR.probe(lambda: fn(trial, sim.A, {"dir": FS.dir("probe")}))[target]
             if n == 0:
                 sim.stats["inject_template:seam_not_called"] += 1
                 return None
